@@ -8,8 +8,13 @@ S2  every (input, expected) state of that model is executed against biotite
     get_segment_* / get_molecule_* / molecule_iter / find_connected) on AtomArray and
     AtomArrayStack; selected graphs are run again with every bond subdivided into a path of
     L new atoms (L up to 50,000) under an 8 MiB stack, expectation from the lemma.
+    The "extra" states vary the non-key annotations (hetero flag, atom name, element); the
+    "hist" states are HISTORIES on one live object: all views, an in-place edit of its
+    annotations (element / slice assignment, re-assignment of the annotation, array[i] = Atom),
+    all views again (one or two edits) - every answer must be the one for the current rows.
 S3  seeded sessions on longer arrays / richer annotations / larger graphs are recorded and
-    re-computed by TLC (specs/C17/Trace.tla).
+    re-computed by TLC (specs/C17/Trace.tla); a session keeps one or two live arrays and
+    interleaves calls with in-place edits of their annotations.
 """
 
 from __future__ import annotations
@@ -68,11 +73,51 @@ def mk_array(rows, stack=False, edges=None, n=None):
         a.res_id = np.array([r[1] for r in rows], dtype=int)
         a.ins_code = np.array([r[2] for r in rows], dtype="U1")
         a.res_name = np.array([r[3] for r in rows], dtype="U5")
+        if len(rows[0]) > 4:   # non-key annotations: hetero flag, atom name (fixes the element)
+            a.hetero = np.array([bool(r[4]) for r in rows], dtype=bool)
+            a.atom_name = np.array([r[5] for r in rows], dtype="U6")
+            a.element = np.array([r[5][:1] for r in rows], dtype="U2")
     a.set_annotation("aid", np.arange(n, dtype=int))
     a.coord[..., 0] = np.arange(n)
     if edges is not None:
         a.bonds = mk_bonds(n, edges)
     return a
+
+
+FIELDS = {1: "chain_id", 2: "res_id", 3: "ins_code", 4: "res_name", 5: "hetero", 6: "atom_name"}
+
+
+def apply_edit(arr, ed):
+    """Execute one edit of Segments!ApplyEdit on the live object (same object afterwards)."""
+    struc = _struc()
+    kind, f, lo, hi, v = ed["kind"], ed["f"], ed["lo"], ed["hi"], ed["v"]
+    if kind == "atom":
+        row = list(v) + ["A", 1, "", "X", False, "CA"][len(v):]
+        if isinstance(arr, struc.AtomArray):
+            arr[lo] = struc.Atom([lo, 0, 0], chain_id=row[0], res_id=row[1], ins_code=row[2],
+                                 res_name=row[3], hetero=bool(row[4]), atom_name=row[5],
+                                 element=row[5][:1], aid=lo)
+        else:   # a stack has no item assignment for atoms: the same writes, annotation by annotation
+            for k, name in FIELDS.items():
+                getattr(arr, name)[lo] = row[k - 1]
+            arr.element[lo] = row[5][:1]
+        return
+    name = FIELDS[f]
+    if kind == "set":
+        getattr(arr, name)[lo] = v
+    elif kind == "fill":
+        getattr(arr, name)[lo:hi] = v
+    elif kind == "assign":
+        new = getattr(arr, name).copy()
+        new[lo:hi] = v
+        if lo % 2:
+            arr.set_annotation(name, new)
+        else:
+            setattr(arr, name, new)
+    else:
+        raise ValueError(f"unknown edit {ed}")
+    if f == 6:
+        arr.element[lo:hi] = v[:1]
 
 
 def mk_bonds(n, edges):
@@ -130,17 +175,20 @@ AXIS_FUNS = ("sum", "min", "max")
 
 
 def _rows_of(piece):
-    return [[str(c), int(r), str(i), str(nm)] for c, r, i, nm in
+    return [[str(c), int(r), str(i), str(nm), bool(h), str(an)] for c, r, i, nm, h, an in
             zip(piece.chain_id.tolist(), piece.res_id.tolist(), piece.ins_code.tolist(),
-                piece.res_name.tolist())]
+                piece.res_name.tolist(), piece.hetero.tolist(), piece.atom_name.tolist())]
 
 
-def _iter_obs(gen, arr, rows):
+def _iter_obs(gen, arr):
+    """ids of the atoms of every yielded piece; carried = the pieces are containers of the same
+    type that carry the annotations and coordinates of exactly those atoms of `arr`."""
     ids, ok = [], True
+    rows = _rows_of(arr)
     for piece in gen:
         a = piece.aid.tolist()
         ids.append([int(x) for x in a])
-        if type(piece) is not type(arr) or _rows_of(piece) != [list(rows[k]) for k in a]:
+        if type(piece) is not type(arr) or _rows_of(piece) != [rows[k] for k in a]:
             ok = False
         if piece.coord[..., 0].tolist() != ([a, a] if piece.coord.ndim == 3 else a):
             ok = False
@@ -157,7 +205,7 @@ def observe(view, inp, stack=False, cache=None):
     level = view[1] if len(view) > 1 else ""
     if cache is None:
         cache = {}
-    if name in ("mol_indices", "mol_masks", "mol_iter", "mol_count", "fc", "fcmask"):
+    if name in ("mol_indices", "mol_masks", "mol_iter", "mol_count", "fc", "fcmask", "bonds"):
         return _observe_graph(view, inp, stack, cache)
     rows = inp["rows"]
     arr = cache.get(("arr", stack))
@@ -165,6 +213,8 @@ def observe(view, inp, stack=False, cache=None):
         arr = cache[("arr", stack)] = mk_array(rows, stack)
     F = _F(level) if level else None
     seg = _seg()
+    if name == "rows":     # the annotations of the live object (binding of the edits)
+        return _call(lambda: [r[:len(rows[0])] if rows else r for r in _rows_of(arr)])
     if name == "starts":
         return _call(lambda: _tolist(F["starts"](arr)))
     if name == "startsStop":
@@ -172,9 +222,9 @@ def observe(view, inp, stack=False, cache=None):
     if name == "count":
         return _call(lambda: int(F["count"](arr)))
     if name == "iter":
-        return _call(lambda: _iter_obs(F["iter"](arr), arr, rows))
+        return _call(lambda: _iter_obs(F["iter"](arr), arr))
     if name == "iter_seg":
-        return _call(lambda: _iter_obs(seg.segment_iter(arr, np.array(view[2], dtype=int)), arr, rows))
+        return _call(lambda: _iter_obs(seg.segment_iter(arr, np.array(view[2], dtype=int)), arr))
     if name == "residues":
         def f():
             ids, names = _struc().get_residues(arr)
@@ -215,6 +265,24 @@ def observe(view, inp, stack=False, cache=None):
     raise ValueError(f"unknown view {view}")
 
 
+def _bond_list(subject):
+    return subject if isinstance(subject, _struc().BondList) else subject.bonds
+
+
+def apply_bond_edit(cache, b, turn=0):
+    """Execute one edit of BondGraph!ApplyBondEdit on every live object of the cache (bond
+    list, atom array, stack); orientation and bond type vary (they must not matter)."""
+    for pos, key in enumerate(sorted(k for k in cache if k[0] == "g")):
+        bl = _bond_list(cache[key])
+        i, j = (b["i"], b["j"]) if (turn + pos) % 2 else (b["j"], b["i"])
+        if b["how"] == "add":
+            bl.add_bond(i, j, 1 + (turn + i + j) % 6)
+        elif b["how"] == "remove":
+            bl.remove_bond(i, j)
+        else:
+            raise ValueError(f"unknown bond edit {b}")
+
+
 def _observe_graph(view, inp, stack, cache):
     np, struc = _np(), _struc()
     name = view[0]
@@ -229,6 +297,8 @@ def _observe_graph(view, inp, stack, cache):
     else:
         subject = cache[("g", how)] = mk_array([["A", 1, "", "X"]] * n, stack=(how == "stack"),
                                                edges=edges, n=n)
+    if name == "bonds":    # the bonds of the live object (binding of the bond edits)
+        return _call(lambda: sorted(sorted(int(x) for x in r[:2]) for r in _bond_list(subject).as_array().tolist()))
     if name in ("fc", "fcmask"):
         bl = cache.get(("g", "bonds"))
         if bl is None:
@@ -341,6 +411,106 @@ def _idx_views(inp, exp):
     return out
 
 
+def _h_views(step, first):
+    """All (view, expected) pairs of one step of a history; `first` = the level asked first."""
+    out = [(["rows", ""], step["rows"])]
+    for level in (first,) + tuple(lv for lv in LEVELS if lv != first):
+        v = step[level]
+        out.append((["starts", level], v["starts"]))
+        out.append((["startsStop", level], v["startsStop"]))
+        out.append((["count", level], v["count"]))
+        out.append((["iter", level], v["iter"]))
+        for f in sorted(v["apply"]):
+            out.append((["apply", level, f], v["apply"][f]))
+        out.append((["spread", level, v["spreadVals"]], v["spread"]))
+        for name in ("sf", "pos", "masks"):
+            out.append(([name, level], v[name]))
+        if level == "residue":
+            out.append((["residues", ""], step["residues"]))
+        else:
+            out.append((["chains", ""], step["chains"]))
+    return out
+
+
+def _h_plan(exp, stack):
+    """The calls of a history, step by step. The level asked first alternates so that for
+    both levels a call directly before an edit and a call directly after one occur."""
+    return [_h_views(step, LEVELS[(k + int(stack)) % 2]) for k, step in enumerate(exp)]
+
+
+def run_history(inp, plan, stack, only=None, on_call=None, quiet=()):
+    """One live object: the views of step 0, then for every edit the edit and the views of
+    the next step. plan[k] = [(view, expected or None), ...]. Returns (mismatches, calls);
+    `only` = (step, view) restricts the comparison (replay); after the steps in `quiet`
+    nothing is asked (several edits between two calls)."""
+    mism, calls = [], 0
+    n = len(inp["rows"])
+    cache = {}
+    for k, views in enumerate(plan):
+        if k > 0:
+            arr = cache[("arr", stack)]
+            apply_edit(arr, inp["edits"][k - 1])
+        if k in quiet:
+            continue
+        cur = {"rows": [], "data": inp["data"], "idx": list(range(n))}
+        for view, e in views:
+            if view[0] == "rows":
+                cur["rows"] = e if e is not None else cur["rows"]
+            if not cache:
+                cache[("arr", stack)] = mk_array(inp["rows"], stack)
+            if on_call:
+                on_call(k, view)
+            obs = observe(view, cur, stack, cache)
+            calls += 1
+            if e is None or (only is not None and only != (k, view)):
+                continue
+            if not agree(view, e, obs):
+                mism.append({"kind": "case", "family": "hist", "view": view, "stack": stack, "step": k,
+                             "quiet": list(quiet), "inp": inp, "plan": [[v for v, _ in vs] for vs in plan],
+                             "expected": e, "observed": obs})
+    return mism, calls
+
+
+def _g_plan(exp):
+    """The calls of a history on a bond list, step by step."""
+    plan = []
+    for step in exp:
+        views = [(["bonds", how], sorted(map(list, step["E"]))) for how in ("bonds", "array", "stack")]
+        views += _graph_views(None, step)
+        plan.append(views)
+    return plan
+
+
+def run_bond_history(inp, plan, only=None, on_call=None, quiet=()):
+    """Live bond list / atom array / stack: the views of step 0, then for every bond edit the
+    edit (on each live object) and the views of the next step (none after a step in `quiet`).
+    Three live objects (bond list, array, stack) are asked in turn; the order is reversed every
+    other time so that the last object asked before an edit is the first one asked after it."""
+    mism, calls, asked = [], 0, 0
+    cache = {}
+    cur = {"n": inp["n"], "E": inp["E"]}
+    for k, views in enumerate(plan):
+        if k > 0:
+            apply_bond_edit(cache, inp["edits"][k - 1], k)
+        if k in quiet:
+            continue
+        asked += 1
+        if asked % 2 == 0:
+            views = views[::-1]
+        for view, e in views:
+            if on_call:
+                on_call(k, view)
+            obs = observe(view, cur, False, cache)
+            calls += 1
+            if e is None or (only is not None and only != (k, view)):
+                continue
+            if not agree(view, e, obs):
+                mism.append({"kind": "case", "family": "ghist", "view": view, "stack": False, "step": k,
+                             "quiet": list(quiet), "inp": inp, "plan": [[v for v, _ in vs] for vs in plan],
+                             "expected": e, "observed": obs})
+    return mism, calls
+
+
 def _graph_views(inp, exp):
     out = []
     for how in ("bonds", "array", "stack"):
@@ -386,7 +556,7 @@ def exec_states(item):
     with open(item["path"], "rb") as fh:
         fh.seek(item["start"])
         text = fh.read(item["end"] - item["start"]).decode()
-    mism, counts = [], {}
+    mism, counts, edits = [], {}, {}
     ncalls = nontriv = nstates = 0
     for block in _blocks(text):
         if 'kind = "root"' in block or 'kind = "chunk"' in block:
@@ -396,6 +566,37 @@ def exec_states(item):
         nstates += 1
         counts[kind] = counts.get(kind, 0) + 1
         nontriv += _nontrivial(kind, inp, exp)
+        if kind in ("hist", "extra"):
+            for k, ed in enumerate(inp["edits"]):
+                moved = any(exp[k][lv]["starts"] != exp[k + 1][lv]["starts"] for lv in LEVELS)
+                key = ed["kind"] + ("/moved" if moved else "/kept")
+                edits[key] = edits.get(key, 0) + 1
+            # one-edit histories and the extra family run on both container types; a two-edit
+            # history runs on one of them (fixed by the edits) with calls after every edit and on
+            # the other one with both edits between two calls
+            two = len(inp["edits"]) == 2
+            pick = sum(ed["lo"] + ed["hi"] + ed["f"] for ed in inp["edits"]) % 2 == 1
+            for stack in (False, True):
+                mm, c = run_history(inp, _h_plan(exp, stack), stack, quiet=(1,) if two and stack != pick else (),
+                                    on_call=lambda k, view: progress({"family": kind, "step": k, "view": view,
+                                                                      "inp": inp}))
+                for m in mm:
+                    m["family"] = kind
+                mism.extend(mm)
+                ncalls += c
+            continue
+        if kind == "ghist":
+            for k, b in enumerate(inp["edits"]):
+                key = b["how"] + ("/moved" if exp[k]["comps"] != exp[k + 1]["comps"] else "/kept")
+                edits[key] = edits.get(key, 0) + 1
+            # with calls after every edit, and (two edits) with both edits between two calls
+            for quiet in ((), (1,))[:len(inp["edits"])]:
+                mm, c = run_bond_history(inp, _g_plan(exp), quiet=quiet,
+                                         on_call=lambda k, view: progress({"family": kind, "step": k, "view": view,
+                                                                           "inp": inp}))
+                mism.extend(mm)
+                ncalls += c
+            continue
         subject, views = _views_of(kind, inp, exp)
         cache = {}
         for view, e in views:
@@ -408,7 +609,8 @@ def exec_states(item):
                 ncalls += 1
                 if not agree(view, e, obs):
                     mism.append(_mm(kind, view, subject, e, obs, stack))
-    return {"mismatch": mism, "states": nstates, "calls": ncalls, "kinds": counts, "nontrivial": nontriv}
+    return {"mismatch": mism, "states": nstates, "calls": ncalls, "kinds": counts, "edits": edits,
+            "nontrivial": nontriv}
 
 
 def _blocks(text):
@@ -426,6 +628,12 @@ def _blocks(text):
 
 def _nontrivial(kind, inp, exp):
     """Rule (ctx.cov['rule'])."""
+    if kind == "hist":     # an edit moved a boundary
+        return int(any(a[lv]["starts"] != b[lv]["starts"] for a, b in zip(exp, exp[1:]) for lv in LEVELS))
+    if kind == "ghist":    # a bond edit merged or split molecules
+        return int(any(a["comps"] != b["comps"] for a, b in zip(exp, exp[1:])))
+    if kind == "extra":    # >= 2 residues and non-key annotations that are not constant
+        return int(len(exp[0]["residue"]["starts"]) >= 2 and len({tuple(r[4:]) for r in inp["rows"]}) >= 2)
     if kind in ("seg", "idx"):
         key = "starts" if kind == "seg" else "ss"
         s = exp["residue"][key]
@@ -529,13 +737,25 @@ INS = ["", "A", "B"]
 NAMES = ["X", "Y", "ALA", "HOH"]
 
 
+ATOM_NAMES = ["CA", "N", "O", "C1"]
+
+
+def _rand_key(rng):
+    return [rng.choice(CHAINS), rng.randint(-2, 6), rng.choice(INS), rng.choice(NAMES)]
+
+
 def _rand_rows(rng, n):
+    """Rows of six components. The non-key annotations (hetero, atom name) vary on their own:
+    constant, changing with the residues (ligand-like), or atom by atom."""
     rows = []
-    cur = [rng.choice(CHAINS), rng.randint(-2, 6), rng.choice(INS), rng.choice(NAMES)]
+    cur = _rand_key(rng)
+    style = rng.choice(["const", "residue", "atom", "atom"])
+    het = rng.random() < 0.3
     for _ in range(n):
         r = rng.random()
+        new = True
         if r < 0.45:
-            pass
+            new = False
         elif r < 0.60:
             cur[1] += rng.choice([1, 1, 1, 2, -1, -3])
         elif r < 0.70:
@@ -545,9 +765,34 @@ def _rand_rows(rng, n):
         elif r < 0.90:
             cur[3] = rng.choice(NAMES)
         else:
-            cur = [rng.choice(CHAINS), rng.randint(-2, 6), rng.choice(INS), rng.choice(NAMES)]
-        rows.append(list(cur))
+            cur = _rand_key(rng)
+        if style == "atom" or (style == "residue" and new):
+            het = rng.random() < 0.5
+        rows.append(list(cur) + [het, rng.choice(ATOM_NAMES)])
     return rows
+
+
+def _rand_edit(rng, rows):
+    """A random edit inside the array (Dom_Edit). Half of the values are taken from an atom
+    next to the edited range (boundaries disappear), the others are fresh (boundaries appear)."""
+    n = len(rows)
+    kind = rng.choice(["set", "set", "fill", "assign", "atom"])
+    lo = rng.randrange(n)
+    hi = lo + 1 if kind in ("set", "atom") else rng.randint(lo + 1, n)
+    nb = [k for k in (lo - 1, hi) if 0 <= k < n]
+    if kind == "atom":
+        if nb and rng.random() < 0.5:
+            row = list(rows[rng.choice(nb)])
+        else:
+            row = _rand_key(rng) + [rng.random() < 0.5, rng.choice(ATOM_NAMES)]
+        return {"kind": kind, "f": 0, "lo": lo, "hi": hi, "v": row}
+    f = rng.choice([1, 2, 2, 3, 4, 5, 5, 6])
+    if nb and rng.random() < 0.5:
+        v = rows[rng.choice(nb)][f - 1]
+    else:
+        v = [rng.choice(CHAINS), rows[lo][1] + rng.choice([-3, -1, 1, 2, 100]), rng.choice(INS),
+             rng.choice(NAMES), rng.random() < 0.5, rng.choice(ATOM_NAMES)][f - 1]
+    return {"kind": kind, "f": f, "lo": lo, "hi": hi, "v": v}
 
 
 def _rand_graph(rng, n):
@@ -576,23 +821,35 @@ def gen_trace(item):
     rng = random.Random(item["seed"])
     ev = []
     if item["what"] == "seg":
-        n = rng.choice([0, 1, 2]) if rng.random() < 0.12 else rng.randint(3, item["nmax"])
-        rows = _rand_rows(rng, n)
-        data = [rng.randint(-9, 9) for _ in range(n)]
-        inp = {"rows": rows, "data": data}
-        stack = rng.random() < 0.3
-        ev.append({"op": "load", "rows": rows, "data": data})
-        cnt = {}
-        for level in LEVELS:
-            oc, v = observe(["count", level], inp, stack)
-            cnt[level] = v if oc == "ok" else 0
+        # one or two live arrays; calls and in-place edits of their annotations interleave
+        subj = []
+        for slot in range(1 if rng.random() < 0.5 else 2):
+            n = rng.choice([0, 1, 2]) if rng.random() < 0.12 else rng.randint(3, item["nmax"])
+            rows = _rand_rows(rng, n)
+            data = [rng.randint(-9, 9) for _ in range(n)]
+            subj.append({"n": n, "inp": {"rows": rows, "data": data}, "stack": rng.random() < 0.3, "cache": {}})
+            ev.append({"op": "load", "slot": slot + 1, "rows": rows, "data": data, "stack": subj[-1]["stack"]})
         for _ in range(item["length"]):
             op = rng.choice(["starts", "startsStop", "count", "iter", "apply", "apply", "spread", "sf", "pos",
-                             "masks", "sf", "masks", "residues", "chains"])
+                             "masks", "sf", "masks", "residues", "chains", "edit", "edit", "edit", "edit"])
             level = rng.choice(LEVELS)
-            e = {"op": op, "level": level}
+            slot = rng.randrange(len(subj))
+            S = subj[slot]
+            n, inp, stack, cache = S["n"], S["inp"], S["stack"], S["cache"]
+            e = {"op": op, "slot": slot + 1, "level": level}
             case = inp
             if op == "startsStop" and n == 0:
+                continue
+            if op == "edit":
+                if n == 0:
+                    continue
+                if not cache:
+                    observe(["count", "residue"], inp, stack, cache)    # the live object exists
+                arr = cache[("arr", stack)]
+                ed = _rand_edit(rng, _rows_of(arr))
+                progress({"family": "s3", "view": ["edit", ed], "inp": inp})
+                apply_edit(arr, ed)
+                ev.append({"op": "edit", "slot": slot + 1, "ed": ed, "oc": "ok", "out": _rows_of(arr)})
                 continue
             if op in ("residues", "chains"):
                 e["level"] = ""
@@ -601,7 +858,11 @@ def gen_trace(item):
                 e["f"] = rng.choice(sorted(_funs()))
                 view = [op, level, e["f"]]
             elif op == "spread":
-                e["vals"] = [rng.randint(-20, 20) for _ in range(cnt[level])]   # Dom_SpreadVals
+                # as many values as the implementation counts segments now (Dom_SpreadVals)
+                oc, c = observe(["count", level], inp, stack, cache)
+                ev.append({"op": "count", "slot": slot + 1, "level": level, "view": ["count", level],
+                           "oc": oc, "none": False, "out": c if oc == "ok" else []})
+                e["vals"] = [rng.randint(-20, 20) for _ in range(c if oc == "ok" else 0)]
                 view = [op, level, e["vals"]]
             elif op in ("sf", "pos", "masks"):
                 k = rng.randint(0, 5)
@@ -613,8 +874,9 @@ def gen_trace(item):
                 view = [op, level]
             else:
                 view = [op, level]
+            e["view"] = view
             progress({"family": "s3", "view": view, "inp": case})
-            oc, v = observe(view, case, stack)
+            oc, v = observe(view, case, stack, cache)
             if op == "iter" and oc == "ok":
                 e["carried"] = v["carried"]
                 v = v["ids"]
@@ -623,25 +885,80 @@ def gen_trace(item):
             e["out"] = v if oc == "ok" and v is not None else []
             ev.append(e)
     else:
+        # one live bond list (and the atom array / stack built on first use); calls and
+        # add_bond / remove_bond interleave
         n = rng.choice([0, 1]) if rng.random() < 0.08 else rng.randint(2, item["nmax"])
         E = _rand_graph(rng, n)
         inp = {"n": n, "E": E}
+        cache = {}
         ev.append({"op": "graph", "n": n, "E": E})
-        for _ in range(item["length"]):
-            op = rng.choice(["mol_indices", "mol_masks", "mol_iter", "fc", "fc", "fcmask"])
+        observe(["bonds", "bonds"], inp, False, cache)        # the live bond list exists
+        for turn in range(item["length"]):
+            op = rng.choice(["mol_indices", "mol_masks", "mol_iter", "fc", "fc", "fcmask", "bond", "bond"])
             e = {"op": op}
+            if op == "bond":
+                if n < 2:
+                    continue
+                i, j = sorted(rng.sample(range(n), 2))
+                now = observe(["bonds", "bonds"], inp, False, cache)[1]
+                if now and rng.random() < 0.5:
+                    i, j = rng.choice(now)                     # an existing bond
+                b = {"how": rng.choice(["add", "remove", "remove"]), "i": i, "j": j}
+                progress({"family": "s3", "view": ["bond", b], "inp": inp})
+                apply_bond_edit(cache, b, turn)
+                outs = [observe(["bonds", k[1]], inp, False, cache)[1] for k in sorted(cache) if k[0] == "g"]
+                # objects built later start from the bonds the live bond list has now
+                inp = {"n": n, "E": outs[0]}
+                ev.append({"op": "bond", "b": b, "turn": turn, "oc": "ok", "out": outs})
+                continue
             if op in ("fc", "fcmask"):
                 root = rng.randint(-1, n + 1) if op == "fc" and rng.random() < 0.2 else (rng.randrange(n) if n else 0)
                 e["root"] = root
                 view = [op, "bonds", root]
             else:
                 view = [op, rng.choice(["array", "stack"] if op == "mol_iter" else ["bonds", "array", "stack"])]
+            e["view"] = view
             progress({"family": "s3", "view": view, "inp": inp})
-            oc, v = observe(view, inp, False)
+            oc, v = observe(view, inp, False, cache)
             e["oc"] = oc
             e["out"] = v if oc == "ok" else []
             ev.append(e)
     return {"events": ev}
+
+
+def _redo(events):
+    """Re-execute a recorded session (loads, edits, calls) on fresh live objects;
+    -> observation [oc, value] of its last event."""
+    subj, graph, obs = {}, None, None
+    for e in events:
+        op = e["op"]
+        if op == "load":
+            subj[e["slot"]] = {"inp": {"rows": e["rows"], "data": e["data"]}, "stack": e.get("stack", False),
+                               "cache": {}}
+        elif op == "graph":
+            graph = {"n": e["n"], "E": e["E"]}
+            gcache = {}
+            observe(["bonds", "bonds"], graph, False, gcache)
+        elif op == "bond":
+            apply_bond_edit(gcache, e["b"], e["turn"])
+            outs = [observe(["bonds", k[1]], graph, False, gcache)[1] for k in sorted(gcache) if k[0] == "g"]
+            graph = {"n": graph["n"], "E": outs[0]}
+            obs = ["ok", outs]
+        elif op == "edit":
+            S = subj[e["slot"]]
+            if not S["cache"]:
+                observe(["count", "residue"], S["inp"], S["stack"], S["cache"])
+            arr = S["cache"][("arr", S["stack"])]
+            apply_edit(arr, e["ed"])
+            obs = ["ok", _rows_of(arr)]
+        elif "slot" in e:
+            S = subj[e["slot"]]
+            obs = observe(e["view"], dict(S["inp"], idx=e.get("idx", [])), S["stack"], S["cache"])
+            if op == "iter" and obs[0] == "ok":
+                obs = ["ok", obs[1]["ids"]] if obs[1]["carried"] else ["ok", {"not carried": obs[1]["ids"]}]
+        else:
+            obs = observe(e["view"], graph, False, gcache)
+    return obs
 
 
 # --------------------------------------------------------------------------- classification
@@ -721,10 +1038,13 @@ def run(ctx):
         "reducing functions are the nine of Segments!Funs on integer data (sum,min,max,first,last,len, array-valued minmax, float-valued half = sum/2 compared as an exact rational, bool-valued anyneg; axis=0 variants on two equal columns)",
         "molecules are compared as sets of atom sets (order of the list is not demanded); bond types and bond orientation are irrelevant",
         "large graphs: expectation from the subdivision lemma (checked by TLC for L<=2); runs under an explicit 8 MiB stack limit",
+        "Dom_Edit: in-place edits of the annotations lie inside the array (element, non-empty slice, re-assigned annotation array, array[i] = Atom); the rows read back from the object after an edit are compared with Segments!ApplyEdit, the array length never changes within a history",
+        "non-key annotations are represented by the hetero flag and the atom name (the element follows the atom name); other annotation categories are not varied",
         "trusted: TLC, the TLA+ value parser, numpy, the construction of AtomArray/BondList from rows/edges, the aid annotation used to identify atoms in yielded sub-arrays",
     ]
     ctx.cov["rule"] = ("non-trivial = segmentation with >= 2 residues of which one has >= 2 atoms; "
-                       "bond graph with >= 1 bond and >= 2 molecules")
+                       "bond graph with >= 1 bond and >= 2 molecules; history in which an edit moves a "
+                       "boundary; >= 2 residues with non-constant non-key annotations")
     # ---- S1: exhaustive bounded model + dump of all (input, expected) states ---------------
     d = tlc.scratch_dir("c17")
     prefix = os.path.join(d, "states")
@@ -738,7 +1058,7 @@ def run(ctx):
         raise RuntimeError(f"dump holds {nstates} states, TLC reported {res.distinct}")
     # ---- S2a: every state against the real API ---------------------------------------------
     results = helpers.run_pool(ctx, "harness.drivers.c17:exec_states", items, stage="S2", item_timeout=120)
-    kinds, calls, done = {}, 0, 0
+    kinds, edits, calls, done = {}, {}, 0, 0
     for r in results:
         if not r or "crash" in r:
             continue
@@ -747,13 +1067,21 @@ def run(ctx):
         ctx.nontrivial += r.get("nontrivial", 0)
         for k, v in r.get("kinds", {}).items():
             kinds[k] = kinds.get(k, 0) + v
+        for k, v in r.get("edits", {}).items():
+            edits[k] = edits.get(k, 0) + v
     ctx.cov["s2_states_per_family"] = kinds
+    ctx.cov["s2_history_edits"] = dict(sorted(edits.items()))
     ctx.cov["s2_real_calls"] = calls
     ctx.traces_validated += done
     ctx.evaluations += calls
-    missing = {"seg", "idx", "graph", "lemma", "loop"} - set(kinds)
+    missing = {"seg", "idx", "graph", "lemma", "loop", "extra", "hist", "ghist"} - set(kinds)
     if missing:
         raise Vacuity(f"input families never executed: {sorted(missing)}")
+    # histories: every kind of edit both moved a boundary and left the segmentation alone
+    missing = {k + w for k in ("set", "fill", "assign", "atom") for w in ("/moved", "/kept")} - set(edits)
+    missing |= {k + w for k in ("add", "remove") for w in ("/moved", "/kept")} - set(edits)
+    if missing:
+        raise Vacuity(f"edits of the history family never occurred: {sorted(missing)}")
     ctx.log(f"S2: {done}/{nstates} states, {calls} real calls, families {kinds}")
     # ---- S2b: scaling through the subdivision lemma ----------------------------------------
     graphs = []
@@ -827,16 +1155,30 @@ def run(ctx):
         for e in t:
             ops[e["op"]] = ops.get(e["op"], 0) + 1
     ctx.cov["s3_events_per_op"] = ops
+    if not ops.get("edit"):
+        raise Vacuity("no recorded session edited a live array")
     ctx.sample({"s3_events": traces[0][:3]})
     for m in mms:
         _tag, tid, l = m[0], m[1], m[2]
         e = traces[tid - 1][l - 1]
         ctx.mismatch({"stage": "S3", "kind": "event", "trace": tid, "event": l, "op": e["op"],
-                      "subject": traces[tid - 1][0], "call": e, "expected": m[3:]})
+                      "history": traces[tid - 1][:l], "call": e, "expected": m[3:]})
+
+    turn = {"k": 0, "edits": 0}
 
     def corrupt(tr):
+        # every second trace: the rows read back after an edit (the edit must bind), otherwise
+        # and in traces without an edit: the first non-empty observation
+        turn["k"] += 1
+        if turn["k"] % 2 == 0:
+            for e in tr[1:]:
+                if e["op"] == "edit" and e["out"]:
+                    row = e["out"][e["ed"]["lo"]]
+                    row[4] = not row[4]
+                    turn["edits"] += 1
+                    return True
         for e in tr[1:]:
-            if e.get("oc") == "ok" and isinstance(e.get("out"), list) and e["out"]:
+            if e["op"] != "edit" and e.get("oc") == "ok" and isinstance(e.get("out"), list) and e["out"]:
                 x = e["out"]
                 while isinstance(x[0], list) and x[0]:
                     x = x[0]
@@ -849,7 +1191,8 @@ def run(ctx):
                 return True
         return False
 
-    helpers.binding_selftest(ctx, traces, corrupt, max_traces=6)
+    helpers.binding_selftest(ctx, traces, corrupt, max_traces=8)
+    ctx.cov["selftest_corrupted_edits"] = turn["edits"]
 
 
 def replay(record):
@@ -859,26 +1202,47 @@ def replay(record):
         obs = observe(record["view"], record["inp"], record.get("stack", False))
         return {"view": record["view"], "inp": record["inp"], "expected": record["expected"],
                 "observed": obs, "mismatch": not agree(record["view"], record["expected"], obs)}
+    if kind == "case" and record.get("family") in ("hist", "extra"):
+        # the whole history is re-executed on a fresh live object (every call of every step, in
+        # the recorded order); the recorded step/view is compared with the recorded expectation
+        plan = [[(v, record["expected"] if (k, v) == (record["step"], record["view"]) else None) for v in vs]
+                for k, vs in enumerate(record["plan"])]
+        mm, _ = run_history(record["inp"], plan, record.get("stack", False), quiet=tuple(record.get("quiet", ())))
+        return {"view": record["view"], "step": record["step"], "inp": record["inp"],
+                "expected": record["expected"], "observed": mm[0]["observed"] if mm else "as expected",
+                "mismatch": bool(mm)}
+    if kind == "case" and record.get("family") == "ghist":
+        plan = [[(v, record["expected"] if (k, v) == (record["step"], record["view"]) else None) for v in vs]
+                for k, vs in enumerate(record["plan"])]
+        mm, _ = run_bond_history(record["inp"], plan, quiet=tuple(record.get("quiet", ())))
+        return {"view": record["view"], "step": record["step"], "inp": record["inp"],
+                "expected": record["expected"], "observed": mm[0]["observed"] if mm else "as expected",
+                "mismatch": bool(mm)}
     if kind == "case" and record.get("family") == "scale":
         return {"error": "scale cases are replayed through ./check (they need the 8 MiB stack child)",
                 "record": record}
     if kind == "event":
-        # re-execute the logged call and compare with the value TLC printed for it
-        e, subj = record["call"], record["subject"]
-        if subj["op"] == "load":
-            inp = {"rows": subj["rows"], "data": subj["data"], "idx": e.get("idx", [])}
-            view = [e["op"], e.get("level", "")] + ([e["f"]] if "f" in e else []) + ([e["vals"]] if "vals" in e else [])
-        else:
-            inp = {"n": subj["n"], "E": subj["E"]}
-            view = [e["op"], "bonds"] + ([e["root"]] if "root" in e else [])
-        obs = observe(view, inp, False)
+        # re-execute the recorded session up to the call and compare with the value TLC printed
+        e = record["call"]
+        obs = _redo(record["history"])
         exp = record.get("expected") or []
+        view = e.get("view", [e["op"]])
         if len(exp) == 2 and exp[0] in ("ok", "Rejected", "any"):
-            bad = not agree(view, {"oc": exp[0], "out": exp[1]}, obs)
+            if e["op"] == "edit":
+                bad = obs != ["ok", exp[1]]
+            elif e["op"] == "bond":
+                bad = obs[0] != "ok" or any(sorted(map(list, o)) != sorted(map(list, exp[1])) for o in obs[1])
+            else:
+                bad = not agree(["starts"] if e["op"] == "iter" else view, {"oc": exp[0], "out": exp[1]}, obs)
+        elif len(exp) == 2 and exp[0] == "WrongSegmentCount":
+            # the number of values to spread was the implementation's own segment count (the
+            # "count" event logged directly before); the specification counts exp[1][0]
+            obs = _redo(record["history"][:-1])
+            bad = obs != ["ok", exp[1][0]]
         else:
-            bad = True   # e.g. WrongSegmentCount: the implementation's segment count is wrong
-        return {"view": view, "inp": inp, "logged": e, "observed_now": obs, "spec_expected": exp,
-                "mismatch": bad}
+            bad = True
+        return {"view": view, "history": record["history"][:-1], "logged": e, "observed_now": obs,
+                "spec_expected": exp, "mismatch": bad}
     if kind == "crash":
         return {"error": "crash records are replayed through ./check", "record": record, "crash": True}
     return {"error": "unknown record", "record": record}
@@ -886,6 +1250,6 @@ def replay(record):
 
 MANIFEST = {
     "technique": "TLA+ specification of residue/chain segmentation and of bond-graph components (specs/C17), implementation-shaped definitions proved equal to per-atom definitions by TLC on all bounded inputs; every TLC state (input, expected) executed against the real functions; graphs scaled to 10^5 atoms through a model-checked subdivision lemma; recorded sessions re-computed by TLC",
-    "level_text": "TLC enumerates all annotation sequences up to length 3 over 16 rows (length 4 in the thorough tier) plus up to length 4 (5) over rows differing in exactly one field, all index arrays up to length 2 (3) with out-of-range entries, all bond graphs on <=5 (6) atoms; for each it checks that change-mask/searchsorted/slice/repeat/DFS-shaped definitions equal the atom-by-atom definitions, then every such state is run against get_residue_*/get_chain_*/residue_iter/chain_iter/apply_*/spread_*/get_segment_*/get_molecule_*/molecule_iter/find_connected on AtomArray and AtomArrayStack. Graphs are re-run with each bond subdivided into paths of 10..50,000 atoms under an 8 MiB stack. Longer arrays (<=14 atoms, 4 chains, negative ids) and random graphs (<=9 atoms) are covered by recorded sessions validated by TLC.",
-    "level_note": "Bounded model checking plus conformance, not proof. Reducing functions are nine fixed functions (integer, float, bool and array results) on integer data; float data are not used. For empty arrays only starts/count/names/iteration are compared. The order of the molecule list is not demanded. Large graphs are checked only in the subdivided-small-graph family and their expectation rests on a lemma model-checked for L<=2. Crashes of the recursive find_connected on components of tens of thousands of atoms are a listed known finding (bonds.pyx cannot be rebuilt here).",
+    "level_text": "TLC enumerates all annotation sequences up to length 3 over 16 rows (length 4 in the thorough tier) plus up to length 4 (5) over rows differing in exactly one field, all index arrays up to length 2 (3) with out-of-range entries, all bond graphs on <=5 (6) atoms; for each it checks that change-mask/searchsorted/slice/repeat/DFS-shaped definitions equal the atom-by-atom definitions, then every such state is run against get_residue_*/get_chain_*/residue_iter/chain_iter/apply_*/spread_*/get_segment_*/get_molecule_*/molecule_iter/find_connected on AtomArray and AtomArrayStack. Arrays of <=3 (4) atoms whose hetero flag and atom name vary independently of the four keys (12-row alphabet) are run the same way, and histories on one live object are enumerated: every array of <=3 (4) atoms x every single in-place edit of an annotation (element or slice assignment, re-assigned annotation array, array[i] = Atom; 6 fields), and every pair of edits on uniform arrays of <=2 (3) atoms - all views are asked before and after each edit and must answer for the current annotations. Graphs are re-run with each bond subdivided into paths of 10..50,000 atoms under an 8 MiB stack. Longer arrays (<=14 atoms, 4 chains, negative ids, varying hetero flags / atom names) and random graphs (<=9 atoms) are covered by recorded sessions validated by TLC; a session keeps one or two live arrays and interleaves calls with random in-place edits.",
+    "level_note": "Bounded model checking plus conformance, not proof. Reducing functions are nine fixed functions (integer, float, bool and array results) on integer data; float data are not used. For empty arrays only starts/count/names/iteration are compared. The order of the molecule list is not demanded. Histories edit annotations in place only (no change of the array length, no edits through views or copies sharing memory); of the non-key annotations only the hetero flag, atom name and element are varied. Large graphs are checked only in the subdivided-small-graph family and their expectation rests on a lemma model-checked for L<=2. Crashes of the recursive find_connected on components of tens of thousands of atoms are a listed known finding (bonds.pyx cannot be rebuilt here).",
 }
